@@ -278,7 +278,7 @@ pub fn check_cmd(tier: Tier) -> i32 {
         Tier::Thorough => {
             for (i, p) in Packaging::ALL.iter().enumerate() {
                 for (j, c) in [Comp::None, Comp::Zstd(5), Comp::Lz4(3), Comp::Lzma(2)].iter().enumerate() {
-                    specs.push((format!("{}-{p:?}-{}", if (i + j) % 2 == 0 { "A" } else { "B" }, c.name()), base_spec(i + j, *p, *c, s32), 1));
+                    specs.push((format!("{}-{p:?}-{}", if (i + j) % 2 == 0 { "A" } else { "B" }, c.name()), base_spec((i + j) % 2, *p, *c, s32), 1));
                 }
             }
             use proptest::strategy::{Strategy, ValueTree};
@@ -328,6 +328,8 @@ pub fn check_cmd(tier: Tier) -> i32 {
     for (pi, (p, stride)) in preps.iter().enumerate() {
         let mut budgets: BTreeSet<u64> = BTreeSet::new();
         let mut b = 0;
+        // generated (larger) specs: at most ~1500 evenly spaced budgets, plus every write boundary
+        let stride = if *stride > 1 { (*stride).max(p.total / 1500) } else { 1 };
         while b <= p.total {
             budgets.insert(b);
             b += stride;
